@@ -8,6 +8,7 @@ require (
 	github.com/coreos/go-oidc/v3 v3.9.0
 	github.com/go-jose/go-jose/v4 v4.0.5
 	github.com/m7913d/go-ntlm v0.0.1
+	github.com/prometheus/client_golang v1.19.0
 	golang.org/x/oauth2 v0.18.0
 	google.golang.org/grpc v1.62.1
 )
@@ -38,7 +39,6 @@ require (
 	github.com/mitchellh/copystructure v1.2.0 // indirect
 	github.com/mitchellh/reflectwalk v1.0.2 // indirect
 	github.com/patrickmn/go-cache v2.1.0+incompatible // indirect
-	github.com/prometheus/client_golang v1.19.0 // indirect
 	github.com/prometheus/client_model v0.6.0 // indirect
 	github.com/prometheus/common v0.50.0 // indirect
 	github.com/prometheus/procfs v0.13.0 // indirect
